@@ -83,7 +83,7 @@ func scalarSet(thorough bool) (names []string, vals map[string]*big.Int) {
 	}
 	if thorough {
 		more := map[string]*big.Int{
-			"n-2": sub(n, big.NewInt(2)), "n+2": add(n, big.NewInt(2)), "2n-1": sub(add(n, n), one),
+			"n-2": sub(n, big.NewInt(2)), "n+2": add(n, big.NewInt(2)),
 			"2^127": p2(127), "2^129-1": sub(p2(129), one), "2^255": p2(255), "2^64": p2(64), "2^64-1": sub(p2(64), one),
 			"lambda-1": sub(lambdaN, one), "lambda+1": add(lambdaN, one), "n-lambda": sub(n, lambdaN), "(n+1)/2": add(new(big.Int).Rsh(n, 1), one),
 			"0xaaaa..":            hexBig("AAAAAAAAAAAAAAAAAAAAAAAAAAAAAAAAAAAAAAAAAAAAAAAAAAAAAAAAAAAAAAAA"),
@@ -101,7 +101,10 @@ func scalarSet(thorough bool) (names []string, vals map[string]*big.Int) {
 			vals[k] = v
 		}
 	}
-	for k := range vals {
+	for k, v := range vals {
+		if v.BitLen() > 256 {
+			panic("scalar set member above 2^256-1: " + k)
+		}
 		names = append(names, k)
 	}
 	sort.Strings(names)
@@ -234,6 +237,17 @@ func groupCases(thorough bool, cc *caseCollector) {
 			want = mul(e.ng, "G", g)
 		} else {
 			want = refsecp.Add(mul(e.na, base(o.name), o.m), mul(e.ng, "G", g))
+		}
+		// ECmult is built on Number.split(ng, 128); where that helper is already wrong
+		// (reported by the split family) the consequence is not reported a second time
+		{
+			var rl, rh secp256k1.Number
+			num(vals[e.ng]).VerifSplit(&rl, &rh, 128)
+			rec := new(big.Int).Lsh(&rh.Int, 128)
+			if rec.Add(rec, &rl.Int).Cmp(vals[e.ng]) != 0 {
+				cc.ok("ecmult", "not judged: split(ng,128) is wrong for this ng (reported as num/split-wrong)")
+				return
+			}
 		}
 		var r secp256k1.XYZ
 		a := o.j
